@@ -512,6 +512,24 @@ def run(p, report, tier):
                            detail="not restricted to the candidates" if not over_cand else
                            "the counts are taken over the candidates only: a cluster / cell is large or small depending on "
                            "which other samples are offered, and with it the score of every candidate")
+    report.rule("R8.17", "the index path and the feature-row path compute in the same number type: the full-length array that "
+                "the candidates' utilities are scattered into is a float NaN array by construction (np.full(n, np.nan)); one "
+                "that inherits the dtype of a weight / label array truncates the utilities on the index path only "
+                "(shared with C01 R1.3)", floor=25)
+    _facts17 = {id(f.node): c01.FnFacts(f) for f in funcs}
+    _proxy17 = c01.Report_proxy(report, {"R1.3": "R8.17"})
+    for f in funcs:
+        c01.check_nan_discipline(p, _proxy17, f, _facts17[id(f.node)])
+    report.rule("R8.15", "candidates given as indices are brought into ONE canonical order before any strategy sees them: on "
+                "its de-duplicating path check_indices binds the indices to np.unique(...) itself (sorted), so X_cand has the "
+                "row order that `candidates=None` produces - strategies whose clustering / tie-breaking follows the row order "
+                "(Clue, DropQuery) otherwise score the same candidate set differently", floor=1)
+    check_indices_canonical(p, report)
+    report.rule("R8.16", "a per-candidate expectation is evaluated for EVERY row of the candidate matrix, in its order: the "
+                "helper `_conditional_expect` hands its callback the row position idx of X itself - it never evaluates a "
+                "de-duplicated / re-ordered copy of X, whose positions the strategies translate through `mapping[idx]` into "
+                "other samples", floor=1)
+    check_conditional_expect_rows(p, report)
     report.assumptions += ["restriction invariance and permutation equivariance of the numbers are not decided",
                            "index spaces are inferred only from the idioms listed in the checker; unknown never fires"]
 
@@ -949,3 +967,67 @@ def check_wrapper_typestate(p, report, funcs):
                        detail="precedes every hypothetical refit" if ok else
                        f"follows / shares a loop with the hypothetical refit at line {(before or in_loop)[0][0]}: the value "
                        "depends on which candidate was simulated last (order and choice of the candidates)")
+
+
+def check_indices_canonical(p, report):
+    g = None
+    for f in p.all_functions():
+        if f.name == "check_indices" and f.file.endswith("utils/_validation.py"):
+            g = f
+    if g is None:
+        raise AnalysisError("check_indices vanished")
+    ps = [a for a in g.params()]
+    if not ps:
+        raise AnalysisError("check_indices has no parameters")
+    ix = ps[0]
+    # the branch taken for unique=True: an `elif unique:` / `if unique:` whose test is the bare parameter
+    branches = [n for n in ast.walk(g.node) if isinstance(n, ast.If) and isinstance(n.test, ast.Name) and n.test.id == "unique"]
+    if not branches:
+        raise AnalysisError("de-duplicating branch of check_indices not found")
+    for br in branches:
+        binds = [a for st in br.body for a in ast.walk(st) if isinstance(a, ast.Assign)
+                 and any(isinstance(t, ast.Name) and t.id == ix for t in a.targets)]
+        def canonical(v):
+            if isinstance(v, ast.Call) and (c01.callname(v) or "") in ("unique", "sort") and v.args \
+                    and not any(k.arg in ("return_index", "return_inverse", "return_counts") for k in v.keywords):
+                return True
+            return False
+        bad = [a for a in binds if not canonical(a.value)]
+        report.add("R8.15", g.qual, f"`{norm_stmt(br, 40)}`: indices bound to their sorted set", f"{g.file}:{(bad[0] if bad else br).lineno}",
+                   bool(binds) and not bad, detail=f"{len(binds)} binding(s), each np.unique(...)" if binds and not bad else
+                   (f"`{norm_stmt(bad[0], 60)}` keeps an order chosen by the caller: the same candidate set given in another "
+                    f"order (a shuffled or ranked index array) reaches the strategies as a differently ordered X_cand"
+                    if bad else "the branch no longer de-duplicates the indices"))
+
+
+def check_conditional_expect_rows(p, report):
+    g = None
+    for f in p.all_functions():
+        if f.name == "_conditional_expect" and f.file.endswith("pool/utils.py"):
+            g = f
+    if g is None:
+        raise AnalysisError("_conditional_expect vanished")
+    ps = [a for a in g.params()]
+    x = ps[0]
+    bad = None
+    n = 0
+    for c in ast.walk(g.node):
+        if isinstance(c, ast.Call) and (c01.callname(c) or "") in ("unique", "sort", "argsort", "lexsort", "permutation", "shuffle") \
+                and c.args and x in names_in(c.args[0]):
+            bad = bad or c
+        # recursion / delegation on a row subset of X
+        if isinstance(c, ast.Call) and (c01.callname(c) or "") == g.name and c.args and isinstance(c.args[0], ast.Subscript) \
+                and base_name(c.args[0]) == x:
+            bad = bad or c
+        if isinstance(c, ast.Call):
+            n += 1
+    # X itself is never rebound to a selection of its rows
+    for a in ast.walk(g.node):
+        if isinstance(a, ast.Assign) and any(isinstance(t, ast.Name) and t.id == x for t in a.targets) \
+                and isinstance(a.value, ast.Subscript) and base_name(a.value) == x:
+            bad = bad or a
+    report.add("R8.16", g.qual, f"every row of `{x}` is evaluated at its own position", f"{g.file}:{(bad or g.node).lineno}", bad is None,
+               detail=f"{n} calls inspected: no de-duplication / re-ordering / row subset of `{x}`" if bad is None else
+               f"`{ast.unparse(bad)[:70]}` evaluates a de-duplicated or re-ordered copy of `{x}`: the position handed to the "
+               f"callback is then a position in that copy, and `mapping[idx]` in the strategies labels another sample - index "
+               f"candidates and feature-row candidates get different utilities")
